@@ -462,3 +462,21 @@ class Resolver:
                 o = self.attr(o[1], n, loaded)
             out.append(o)
         return out, ok
+
+
+def blame_root(start, culprit_of, failing):
+    """Follow the chain  module -> module that was executing when its import failed.  Returns the module that is
+    to be reported for `start`: the end of the chain (a module that fails on its own account), or, when the chain
+    runs into a cycle (modules blaming each other: an import cycle), the smallest member of that cycle — so a
+    failure is never dropped just because everybody blames somebody else."""
+    seen = [start]
+    cur = start
+    while True:
+        nxt = culprit_of(cur)
+        if nxt is None or nxt == cur or nxt not in failing:
+            return cur
+        if nxt in seen:
+            cyc = seen[seen.index(nxt):]
+            return min(cyc)
+        seen.append(nxt)
+        cur = nxt
